@@ -104,6 +104,13 @@ CHECKS = {
         note="Not all interleavings: no controlled scheduler for CPython+native code exists here (TSan/helgrind unusable on CPython/JIT); evidence reports the overlap achieved.",
         design="3/C14",
     ),
+    "C06": dict(
+        level="translation_validation",
+        technique="runtime differential monitoring with sanitizers: one IR module executed by the sanitizing interpreter, by gcc-compiled emitted C under ASan+UBSan and by the JIT-compiled emitted LLVM; bit-for-bit output comparison; gcc -pedantic-errors and LLVM verifier on every module",
+        text="~1.4k programs per quick run (kernel modules incl. assemble/compute histories on ulp-sensitive values + random well-typed IR programs exercising precedence, promotion, min/max, bool->int, compound assignment, short-circuit guards) agree three ways bit for bit.",
+        note="Known finding K5 (C printer re-associates right-nested float + and *) classified by predicate + counterfactual (same module printed with parentheses preserved). Unsafe programs are discarded.",
+        design="3/C06",
+    ),
 }
 
 PENDING = {
